@@ -24,6 +24,7 @@
 package c07
 
 import (
+	"bytes"
 	"errors"
 	"fmt"
 	"io"
@@ -538,10 +539,13 @@ func parseKeys(s string) []keySpec {
 }
 
 func (k keySpec) subtlePrimitive() (tink.StreamingAEAD, error) {
+	// the constructors get a private copy of the key, overwritten after construction
+	mk := bytes.Clone(k.mainKey)
+	defer hx.Scribble(mk)
 	if k.kind == "G" {
-		return subtle.NewAESGCMHKDF(k.mainKey, k.hkdf, k.dk, k.seg, k.off)
+		return subtle.NewAESGCMHKDF(mk, k.hkdf, k.dk, k.seg, k.off)
 	}
-	return subtle.NewAESCTRHMAC(k.mainKey, k.hkdf, k.dk, k.taghash, k.tag, k.seg, k.off)
+	return subtle.NewAESCTRHMAC(mk, k.hkdf, k.dk, k.taghash, k.tag, k.seg, k.off)
 }
 
 func gcmHash(s string) aesgcmhkdf.HashType {
